@@ -43,6 +43,7 @@ type stubPlugin struct {
 	unreachable bool
 	mu          sync.Mutex
 	calls       []pluginCall
+	malSeq      int
 }
 
 func (p *stubPlugin) callsFor(op string) []pluginCall {
@@ -185,7 +186,20 @@ func worldPlugins(w *World) {
 					}
 				}
 			case poMalformed:
-				rw.Write([]byte(`{"reject": fal`))
+				// bodies that are not one well-formed reply object; the variant is drawn per call
+				p.mu.Lock()
+				p.malSeq++
+				k := simnet.NewRand(w.In.Seed, fmt.Sprintf("malformed%d.%d", p.idx, p.malSeq)).Intn(7)
+				p.mu.Unlock()
+				rw.Write([]byte([]string{
+					`{"reject": fal`,
+					`{"reject":false,"unchange":true} upstream error: connection reset`,
+					`{"reject":false,"unchange":true}{"reject":true,"reject_reason":"second object"}`,
+					``,
+					`OK`,
+					`[{"reject":false,"unchange":true}]`,
+					`{"reject":"no","unchange":true}`,
+				}[k]))
 			}
 		})}
 		node.Go(func() { srv.Serve(ln) })
